@@ -15,7 +15,7 @@ CLAIMS = {
    ref="4/C07"),
  "C08": dict(
    text="Bounded symbolic execution of the real FuncToString over the complete flag space of the documented signature shapes (style x receiver x source/destination pointer-ness x error x 0..3 additional arguments): each path's header is parsed and compared with a table of the README's shapes.",
-   note=TB+"Names/types are placeholder atoms. Operand extraction from go/types (CreateFunction) is covered by the mode-T harnesses when registered.",
+   note=TB+"Mode K: names/types are placeholder atoms. Mode T (C08CreateFunction): real CreateFunction over a 120-signature skeleton with go/types facts as reference and the Go type checker as judge of the emitted header.",
    technique="SMT-guided symbolic execution of go/ssa (path forking, z3), concrete AST judge per path, native replay of models",
    ref="4/C08"),
  "C10": dict(
@@ -58,6 +58,11 @@ CLAIMS = {
    note=TB+"Programs: skeleton scope; notation texts from menus (28800 combinations).",
    technique="symbolic execution of go/ssa with native go/types bridge; exhaustive slot exploration against a reference model; native replay",
    ref="4/C09"),
+ "C14": dict(
+   text="Symbolic execution of the real front half on skeleton packages (native go/types objects) for every entry of a menu of 96 malformed / misplaced / wrongly-shaped notations and referenced function signatures, combined with toggles: Go run-time panics are first-class outcomes of the executor (nil dereference, index, slice, makeslice, type assertion, native panics inside go/types calls) and an implicit obligation on every path; rejection must carry a positioned diagnostic; success must keep every method. Plus -out = input. Counterexamples are replayed natively on the materialised skeleton.",
+   note=TB+"Programs: skeletons bad/basic; notation texts from menus, not arbitrary byte strings. Panics/hangs inside go/packages, imports, regexp are outside.",
+   technique="symbolic execution of go/ssa with native go/types bridge; panic-freedom as path outcome; native replay",
+   ref="4/C14"),
 }
 
 NA_REASON = "check under construction in this session (engine exists, harness not yet registered); see DESIGN.md section 4"
